@@ -17,7 +17,7 @@ RULE = (
     "Gibbs / MH updates and parental swaps whose probabilities were compared with the joint built from trio_log_pmf x independent likelihood"
 )
 FAULT_KEYS = ["adversarial_choice", "shuffle", "swap_unequal_reads", "swap_q_more_reads_than_p"]
-PROBE_KEYS = ["choice_fidelity_checked", "gibbs_vectors", "mh_pairs", "swap_pairs", "unbalanced_tau_target", "selfing_target", "one_unknown_parent_target",
+PROBE_KEYS = ["draws_from_verified_vector", "sweeps_full", "choice_fidelity_checked", "gibbs_vectors", "mh_pairs", "swap_pairs", "unbalanced_tau_target", "selfing_target", "one_unknown_parent_target",
               "target_has_children", "swap_no_proposal", "swap_q_more_reads_than_p", "zero_density_skip"]
 OPTIONAL_PROBES = {"quick": (), "thorough": ()}
 COMPONENTS = {
